@@ -1,9 +1,9 @@
 SPECIFICATION Spec
 CONSTANTS
   NPaths = 3
-  Contents = {"Enum", "Mod", "GStr", "GInt", "DiagOff", "Alias", "ReqB"}
+  Contents = {"Enum", "Mod", "GStr", "DiagOff", "Alias", "ClsPlain"}
   Ops = {"update", "unset", "remove"}
-  MaxSteps = 4
+  MaxSteps = 3
   EditDist = 3
   Batch = FALSE
   EmitSel = "removal"
